@@ -615,6 +615,10 @@ class Interp:
                     self.assign(t, x, s, None)
             else:
                 self.need(bool(v.kinds) and v.kinds <= ITERABLE | frozenset(["opaque"]), "TypeError", target, "unpack", v.describe())
+                if isinstance(value_expr, ast.Call) and isinstance(value_expr.func, ast.Attribute) and value_expr.func.attr in ("split", "rsplit", "splitlines") \
+                        and not any(isinstance(t, ast.Starred) for t in target.elts):
+                    # `a, b = text.split("#")`: as many parts as the data has separators -- one '#' too many, or none, and the unpacking fails
+                    self.need(False, "ValueError", target, "unpacking the parts of a str.split into a fixed number of names", norm(value_expr)[:50])
                 e = v.elem_av() if v.kinds & ITERABLE else AV(["opaque"])
                 for t in target.elts:
                     self.assign(t, e, s, None)
